@@ -69,6 +69,15 @@ class CHECK(Check):
     def impl(self, case):
         base, attr = family(case["fam"])
         objs = {}
+        if case["fam"] == "register":
+            # real component lists: value id v is the list [register class with identifier "V<v>"], so that File.read
+            # with the selected list can be observed too
+            from .. import reglib
+            ids = set([1, 2, 3, 4] + [v for _, _, t in case["classes"] if t for _, v in t])
+            for v in ids:
+                rc = reglib.mk_register_class({"ident": "V%d;" % v, "digits": len("V%d;" % v), "fields": [{"k": "lit", "size": 3, "start": 6}]}, v)
+                lst = [rc]
+                objs[v] = lst
         classes = [base]
         for i, (par, act, tab) in enumerate(case["classes"]):
             if i == 0:
@@ -83,10 +92,26 @@ class CHECK(Check):
         trace = []
         for c, v in case["ops"]:
             classes[c].set_version(v)
-            trace.append([getattr(k, attr)[0] if getattr(k, attr) else 1 for k in classes])
+            trace.append([self.ident_of(getattr(k, attr)) for k in classes])
         if (getattr(base, attr), dict(base.VERSIONS)) != base_before or getattr(base, attr) != []:
             return {"error": "framework base class modified"}
-        return {"trace": trace}
+        out = {"trace": trace}
+        if case["fam"] == "register":
+            content = "".join("V%d; x\n" % v for v in sorted(objs))
+            reads = []
+            for k in classes[1:]:
+                f = k.read(content)
+                typed = [getattr(type(e), "_verif_idx", None) for e in f.data if getattr(type(e), "_verif_idx", None) is not None]
+                reads.append(typed)
+            out["reads"] = reads
+        return out
+
+    @staticmethod
+    def ident_of(lst):
+        if not lst:
+            return 1
+        x = lst[0]
+        return x if isinstance(x, int) else getattr(x, "_verif_idx", -1)
 
     def model_arg(self, case):
         cls = [[[] if p is None else [p], [] if a is None else [a],
@@ -97,7 +122,11 @@ class CHECK(Check):
     entry = "C19seq"
 
     def model_obs(self, case, res):
-        return {"trace": [[x[0] if x else None for x in step] for step in res]}
+        tr = [[x[0] if x else None for x in step] for step in res]
+        out = {"trace": tr}
+        if case["fam"] == "register":
+            out["reads"] = [[v] for v in tr[-1][1:]]
+        return out
 
     def oracle(self, case, obs):
         if "trace" not in obs:
@@ -131,6 +160,11 @@ class CHECK(Check):
             for i in range(len(cl)):
                 if not descends(i, c) and got[i] != before[i]:
                     return "selection on class %d changed class %d (parent or sibling)" % (c, i)
+        if "reads" in obs:
+            final = obs["trace"][-1]
+            for i, typed in enumerate(obs["reads"]):
+                if typed != [final[i + 1]]:
+                    return "File.read does not use the selected component list"
         return None
 
     def nontrivial(self, case, obs):
